@@ -73,6 +73,18 @@ CLAIMED = {
     "C15": ("Partial. REFUTED (D7: comma, goto, break, continue, labels are accepted and dropped), rejected constructs shown rejected on the "
             "model; per run: K2 on each unsupported construct at every statement position; oracle: accepted program must not contain a construct "
             "of the property's list (known: the five dropped ones).", "model + refutation witnesses; K2; construct oracle"),
+    "C17": ("Partial: Lark's Earley engine and its ambiguity resolution are third-party runtime and are not modelled. Obligations (props/C17.v) over tables REGENERATED "
+            "from grammar.lark: the expression tower has exactly the C11 levels in C order, each binary level is left-recursive over the next tighter one with the C operator "
+            "spellings, ?: and assignment are right-recursive, if-else precedes if, keyword-like terminals outrank IDENTIFIER, operand terminals. K7 ties the engine: every ordered "
+            "pair of binary operators at equal/adjacent levels in both groupings, unary vs binary, random trees (nesting <= 6) printed with minimal parentheses, statement "
+            "shapes, operand classification table, each under 2-4 PYTHONHASHSEED values; the Lark tree must map to exactly the generating AST. Known findings D11 (dangling "
+            "else binds to the outer if), D25 ([0-31] character class), D26 (no maximal munch for ++), D27 (cast vs parenthesised identifier).",
+            "Coq obligations over regenerated grammar tables; K7 structural correspondence against Lark (test part)"),
+    "C18": ("Proof for the scheduler model (model/Pool.v: workers take tasks in any order, finish in any order, results are consumed in task order as imap does): for EVERY "
+            "worker count and EVERY schedule the final table equals sequential map, no deadlock, one entry per task, replacing one task changes only its own entry "
+            "(proofs/PoolProofs.v). Premises (the loop shape `for res in pool.imap(parse_single, args): result.update(res)`; parse_single converts every exception into a "
+            "result) are shape-checked against Parser.py on every run; K6 runs the real pool (1,2,4,16 workers, duplicates, broken behaviours) against sequential parsing. "
+            "multiprocessing itself (process death, pickling) is runtime and not modelled.", "Coq proof over all schedules of a hand-written pool model; source shape check; K6"),
     "C19": ("Proof over all strings for the splitting regexes (regenerated from the source with CPython's own regex parser into lib/Regex.v terms; theorems "
             "split_line_roundtrip / split_compounds_spec / load_line_spec in proofs/PreProofs.v when present), examples and REFUTATIONS by vm_compute (D12a garbage before "
             "`insn(` is accepted; D12b text before the first part marker is dropped). K5 ties model/Pre.v to the code on all 2181 bundled lines (quick: 500), all 72 "
@@ -123,7 +135,7 @@ m = {
                  "kind_free_text": "Coq 8.16.1 development: regenerated modules (gen/), hand-written model (model/), semantics (sem/), theorems (props/); "
                                    "harness tools/vt/ evaluates model, oracles and correspondences inside Coq (vm_compute)"}],
     "checks": checks,
-    "not_applicable": [{"property_id": p["id"], "reason": "check under construction in this round (not yet claimed)"} for p in props if p["id"] not in claimed],
+    "not_applicable": [{"property_id": p["id"], "reason": "no check registered"} for p in props if p["id"] not in claimed],
     "notes": "see DESIGN.md; known findings in known_findings.json",
 }
 json.dump(m, open(os.path.join(HERE, "MANIFEST.json"), "w"), indent=1)
